@@ -57,13 +57,13 @@ impl Engine for Hnswsim {
     }
 
     fn rule(&self, _profile: &str) -> String {
-        "one evaluation = one seeded history of insert / insert_with_callback (level draw supplied from the seed) / delete_by_row_id / delete(node) / vacuum_batch / sync / drop+open on turdb::hnsw::PersistentHnswIndex over a file on simdisk, dimensions 1-8, <= 200 nodes, metric L2 / cosine / inner product, with and without the SQ8 flag (quantised runs hand the index the SQ8 round trip of every vector); after create and after every executed operation each of the case's 3-6 query vectors (k, ef per query; one query has k = ef = 512 so that it covers every index of this engine) is searched and checked against a row_id -> vector map by brute force: count <= k, distinct row ids, every row id live, non-decreasing true distance (f64, metric of the index, tolerance 1e-5 relative to the summed term magnitudes) among the returned live ids, >= 1 live result when anything is live, all live rows when ef >= number of nodes in the file and k >= live count; the same queries before and after every drop+open must answer identically; at sync operations of half of the runs the kill and the power-strict image of the file are opened and must answer identically; every vector of the case goes through SQ8 encode -> (stored form) -> decode and must come back within (max-min)/255 + 2 ulp per component. non-trivial = at least 5 inserts and 5 mutating operations executed and at least one search checked; distinct = distinct explicit cases (hash of the case); states = distinct (live-count bucket, deleted-node count, max graph level, entry-point state, reopened)".into()
+        "one evaluation = one seeded history of insert / insert_with_callback (level draw supplied from the seed) / delete_by_row_id / delete(node) / vacuum_batch / sync / drop+open on turdb::hnsw::PersistentHnswIndex over a file on simdisk, dimensions 1-8, <= 200 nodes, metric L2 / cosine / inner product, with and without the SQ8 flag (quantised runs hand the index the SQ8 round trip of every vector); after create and after every executed operation each of the case's 4-7 queries (vector, k, ef, plain `search` or `search_filtered` with visibility = row is live; query 0 and its search_filtered twin query 1 have k = ef = 512 so that they cover every index of this engine) is searched and checked against a row_id -> vector map by brute force: count <= k, distinct row ids, every row id live, non-decreasing true distance (f64, metric of the index, tolerance 1e-5 relative to the summed term magnitudes) among the returned live ids, >= 1 live result when anything is live, all live rows when ef >= number of nodes in the file and k >= live count; the same queries before and after every drop+open must answer identically; at sync operations of half of the runs the kill and the power-strict image of the file are opened and must answer identically; every vector of the case goes through SQ8 encode -> (stored form) -> decode and must come back within (max-min)/255 + 2 ulp per component; an insert that the documented page-layout rule says makes two areas of a node page share bytes is executed, together with the rest of the run, in a forked copy of the process so that an abort or a hang of TurDB still ends in a verdict (process-died / hang), and the run stops after that step. non-trivial = at least 5 inserts and 5 mutating operations executed and at least one search checked; distinct = distinct explicit cases (hash of the case); states = distinct (live-count bucket, deleted-node count, max graph level, entry-point state, reopened)".into()
     }
 
     fn real_vs_stub(&self) -> Value {
         json!({
             "real": [
-                "turdb::hnsw::PersistentHnswIndex (create/open/insert/insert_with_callback/delete/delete_by_row_id/vacuum_batch/sync/search), HnswStorage, HnswPage, search::{beam_search, greedy_search, HnswSearchContext}, operations::{select_level, insert_descent_phase, insert_connection_phase}, quantization::SQ8Vector (src/hnsw/*, unchanged sources built through the shadow manifest)",
+                "turdb::hnsw::PersistentHnswIndex (create/open/insert/insert_with_callback/delete/delete_by_row_id/vacuum_batch/sync/search/search_filtered/read_node), HnswStorage, HnswPage, search::{beam_search, greedy_search, HnswSearchContext}, operations::{select_level, insert_descent_phase, insert_connection_phase}, quantization::SQ8Vector (src/hnsw/*, unchanged sources built through the shadow manifest)",
                 "turdb::storage::MmapStorage on a real tmpfs file (mmap MAP_SHARED, ftruncate, msync)"
             ],
             "simulated": [
@@ -73,7 +73,7 @@ impl Engine for Hnswsim {
             ],
             "oracle": [
                 "BTreeMap row_id -> vector, brute-force distances in f64",
-                "independent decoder of the node page slot directory (diagnosis field `page` only)"
+                "the documented node-page layout rule (slot sizes from levels, 13-bit slot offsets) applied to the node ids the inserts returned: signature field `page` and the decision to run a step in a forked copy; graph walk over read_node for the signature field `why` (diagnosis only, no verdict depends on either)"
             ]
         })
     }
@@ -88,6 +88,9 @@ impl Engine for Hnswsim {
             "true distance = the metric the index was created with (L2 order = squared L2 order; cosine = 1 - cos with TurDB's own convention 1 for a zero vector; inner product = -dot)".into(),
             "in SQ8 runs the ranking oracle uses the dequantised vectors (they are what the index is given); closeness of dequantised to original vectors is the separate SQ8 clause".into(),
             "vector components have magnitude <= 1e6 in histories (larger ones only in the stand-alone SQ8 clause)".into(),
+            "half of the cosine runs use vectors of norm exactly 1 (the module header's precondition for cosine); ranking violations of cosine runs carry vectors=unit-norm / not-unit-norm".into(),
+            "search_filtered is called with the visibility predicate 'row id is live in the model'".into(),
+            "the simulation child caps its address space at 1 GiB so that an allocation request of a corrupted search (up to 2^51 bytes) fails at once and identically everywhere; the run stops after the first step at which the page-layout rule predicts overlapping areas (everything later would restate that damage)".into(),
             "after an operation that returned an error or panicked the run stops; after a drop+open without sync that changed results the run stops".into(),
             "single-threaded use; no injected I/O errors (the fault dimension is the reopen / crash-image dimension)".into(),
         ]
